@@ -48,7 +48,8 @@ from vlib.runner import HarnessError, Result
 
 PROPERTY = "C20"
 LEVEL = "exploration"
-RULE = ("Hypothesis-generated histories over 3 names x 4 addresses (2 IPv4, a bracketed IPv6, a host name): "
+RULE = ("Hypothesis-generated histories over 3 names (one with upper-case letters) x 6 targets (2 IPv4, a bracketed "
+        "IPv6, a host name, an upper-case unbracketed IPv6 literal, and the second name itself = chained names): "
         "up to 3 start-up mappings plus up to 30 steps, each an ADDRMAP line exactly as Tor formats it "
         "(local time under a simulated zone offset + EXPIRES=UTC [+ CACHED], the three-field UTC form of "
         "GETINFO address-mappings/all and of old Tors on a UTC host, NEVER, <error> with and without the optional "
@@ -66,8 +67,14 @@ RULE = ("Hypothesis-generated histories over 3 names x 4 addresses (2 IPv4, a br
         "Non-trivial = >=2 mapping lines and at least one timed mapping observed both alive and, later, "
         "expired; distinct = distinct canonical JSON of the whole case.")
 ASSUMPTIONS = [
-    "names and addresses are disjoint sets (a name never equals the address of another mapping); "
-    "the map keys both in one dict, so such collisions are ambiguous and not generated",
+    "one target equals the second name (MapAddress a b, .exit and automap mappings are name -> name, and b may be "
+    "mapped itself, before or after); find() has one namespace, so a lookup of that name may be answered by the other "
+    "mapping found via its target - accepted if that mapping is alive and current, except that while the name's own "
+    "latest mapping is certainly alive it is this one that must come back; lookup by that target is never required to "
+    "succeed; a name is never mapped to itself; no name equals an IP-literal address",
+    "the third name has upper-case letters (Tor echoes configured names as typed; old Tors any name); it is looked up "
+    "only in exactly Tor's spelling, nothing is asserted about other capitalisations, and whether the map reports "
+    "names in Tor's spelling or case-folded is not judged; no two names differ only in case",
     "Tor's timestamps are whole seconds; the controller's clock may have a sub-second fraction",
     "the three-field line (no EXPIRES=) carries UTC: that is what GETINFO address-mappings/all emits and what "
     "a pre-EXPIRES Tor emits on a host whose zone is UTC; under any other zone that old form is ambiguous and not generated",
@@ -106,12 +113,16 @@ ASSUMPTIONS = [
     "judged, and the reference map follows the notification itself, not what a later-called listener pieces together",
 ]
 
-NAMES = ["www.example.com", "mail.example.org", "cdn7.test.invalid"]
+# the third name has upper-case letters: Tor prints a configured mapping (and old Tors any name) as it was typed
+NAMES = ["www.example.com", "mail.example.org", "Cdn7.Test.INVALID"]
 # index 4 is a target as a user may have typed it into MapAddress / MAPADDRESS: Tor checks such a target with
 # tor_addr_parse() (which accepts an unbracketed, upper-case IPv6 literal) and prints it back verbatim in
 # GETINFO address-mappings/*; it is generated only for never-expiring (i.e. configured) mappings
-ADDRS = ["93.184.216.34", "10.1.2.3", "[2001:db8::5]", "exit-target.example.net", "2001:DB8::2:1"]
+# index 5 is the second NAME: a mapping whose target is itself a (possibly mapped) name, as in
+# "MapAddress www.example.com mail.example.org" followed by a resolve of mail.example.org
+ADDRS = ["93.184.216.34", "10.1.2.3", "[2001:db8::5]", "exit-target.example.net", "2001:DB8::2:1", NAMES[1]]
 RESOLVED_ADDRS = 4      # indices below this are what a resolve can produce
+TYPED, CHAIN, CHAIN_NAME = 4, 5, 1
 
 
 def _canon(a):
@@ -133,6 +144,13 @@ def _stamp(t):
     return (_EPOCH0 + _dt.timedelta(seconds=int(t))).strftime(FMT)
 
 
+def _addr_of(step):
+    j = step["addr"] % len(ADDRS)
+    if j == CHAIN and step["name"] % len(NAMES) == CHAIN_NAME:
+        j = 0           # a name is not mapped to itself
+    return j
+
+
 def format_line(step, now_int, zone_min):
     """The text after '650 ADDRMAP ' as Tor's control_event_address_mapped() / addressmap_get_mappings() write it:
     Address NewAddress Expiry [error=..] [EXPIRES=..] [CACHED=..] [STREAMID=..]."""
@@ -145,7 +163,7 @@ def format_line(step, now_int, zone_min):
             kws.append("error=yes")
         cached = "NO" if form == "new" else None
     else:
-        addr = ADDRS[step["addr"] % len(ADDRS)]
+        addr = ADDRS[_addr_of(step)]
         cached = ("YES" if step.get("cached") else "NO") if form == "new" else None
     if step["exp"] is None:
         head = "%s %s NEVER" % (name, addr)
@@ -358,7 +376,8 @@ class _World(object):
 # Root-cause tags.  A hazard is a fact about the *case* (e.g. "an <error> arrived while this name had a
 # timed mapping"); it names the tag only for the symptoms that root cause can produce.  Any other
 # discrepancy keeps its symptom as tag, so a different defect gets a different tag.
-HAZ_ORDER = ["stale-timer-after-error", "stale-timer-after-never", "expiry-delay-arithmetic"]
+HAZ_ORDER = ["stale-timer-after-error", "stale-timer-after-never", "expiry-delay-arithmetic",
+             "target-is-also-a-name"]
 _TIMER_FIRES_WRONGLY = {"advance-raised", "expired-while-alive", "live-name-not-found", "expired-twice",
                         "expired-without-added"}
 HAZ_EXPLAINS = {
@@ -366,14 +385,22 @@ HAZ_EXPLAINS = {
     "stale-timer-after-never": _TIMER_FIRES_WRONGLY,
     "expiry-delay-arithmetic": {"expired-while-alive", "live-name-not-found", "expired-not-notified",
                                 "expired-name-still-found"},
+    # one dict holds names and targets: a line about a name that is also some mapping's target hits that mapping
+    "target-is-also-a-name": {"wrong-mapping-returned", "live-name-not-found", "added-missing", "advance-raised",
+                              "expired-while-alive", "expired-not-notified", "update-raised", "unexpected-added",
+                              "added-wrong-address", "dropped-name-still-found", "expired-without-added"},
 }
 MAX_DEPTH = 4       # step frame + up to three lines fed from inside callbacks
 
 
+_NAMES_LOWER = [n.lower() for n in NAMES]
+
+
 def _name_index(name):
+    # whether the map hands names back in Tor's capitalisation or folded is not judged
     try:
-        return NAMES.index(name)
-    except ValueError:
+        return _NAMES_LOWER.index(name.lower())
+    except (ValueError, AttributeError):
         return None
 
 
@@ -694,6 +721,25 @@ class _Run(object):
             if got is not None and got[0] == "raised":
                 self.bad(i, "find-raised", "%s: find(%r) raised %s" % (why, name, got[1]))
                 continue
+            if got is not None and i == CHAIN_NAME and _name_index(got[1]) not in (None, i):
+                # this name is also the target of another name's mapping, and find() has one namespace: what came
+                # back is that other mapping, found by address.  Fine if it is alive and current - but then the
+                # name's own mapping, if it has one that is certainly alive, is what must not be missing.
+                k = _name_index(got[1])
+                if CHAIN in skip_addrs or k in skip_names:
+                    continue
+                mk = self.m[k]
+                if mk is None or (def_expired(mk, now) and mk["turn"] and settled) or \
+                        _canon(got[2]) != CANON[mk["addr"]]:
+                    res.bad("address-key-survives-expiry", "%s: find(%r) returns %r which is not the current, "
+                            "unexpired mapping of that name" % (why, name, got[1:]))
+                    continue
+                res.label("name-lookup-answered-by-address-entry")
+                if mm is not None and def_live(mm, now) and self.heard[i] and i not in lenient:
+                    self.bad(i, "live-name-shadowed-by-address-entry", "%s: find(%r) returns %r, the mapping of another "
+                             "name whose target it is, instead of its own mapping -> %s" % (
+                                 why, name, got[1:], ADDRS[mm["addr"]]))
+                continue
             if mm is None:
                 if got is not None:
                     if hearing == i:
@@ -710,7 +756,7 @@ class _Run(object):
                     if i not in lenient:
                         self.bad(i, "live-name-not-found", "%s: find(%r) fails at %s although its latest mapping "
                                  "(-> %s) expires %s" % (why, name, _stamp(now), ADDRS[mm["addr"]], _exp_text(mm)))
-                elif got[1] != name or _canon(got[2]) != CANON[mm["addr"]]:
+                elif _name_index(got[1]) != i or _canon(got[2]) != CANON[mm["addr"]]:
                     self.bad(i, "wrong-mapping-returned", "%s: find(%r) returns %r, latest mapping is -> %s" % (
                         why, name, got[1:], ADDRS[mm["addr"]]))
                 else:
@@ -750,6 +796,8 @@ class _Run(object):
                 i = _name_index(got[1])
                 if i is not None and i in skip_names:
                     continue
+                if j == CHAIN and i == CHAIN_NAME:
+                    continue        # the name's own entry: judged above, as a name
                 mm = self.m[i] if i is not None else None
                 dead = mm is None or (def_expired(mm, now) and mm["turn"] and settled)
                 if i is None or dead or _canon(got[2]) != CANON[mm["addr"]]:
@@ -779,7 +827,7 @@ class _Run(object):
             if addr == ERROR:
                 continue
             us = users.get(j, [])
-            if len(us) == 1 and j not in self.contested and us[0] not in lenient:
+            if len(us) == 1 and j not in self.contested and us[0] not in lenient and j != CHAIN:
                 mm = self.m[us[0]]
                 if def_live(mm, now) and not mm["changed"] and self.heard[us[0]]:
                     self.bad(us[0], "address-lookup-fails", "%s: find(%r) fails although %r was first mapped to "
@@ -789,7 +837,11 @@ class _Run(object):
     def do_map(self, step, why):
         res = self.res
         i = step["name"] % len(NAMES)
-        j = step["addr"] % len(ADDRS)
+        j = _addr_of(step)
+        if j == CHAIN:
+            self.res.label("target-is-another-name")
+            self.haz[i].add("target-is-also-a-name")
+            self.haz[CHAIN_NAME].add("target-is-also-a-name")
         now = self.world.now()
         now_int = int(now)
         E = None if step["exp"] is None else now_int + step["exp"]
@@ -952,9 +1004,13 @@ class _Run(object):
         fr = _Frame("boot", "TorState bootstrap with address-mappings/all=%r" % (lines,))
         for bs in boot_steps:
             i = bs["name"] % len(NAMES)
-            j = bs["addr"] % len(ADDRS)
+            j = _addr_of(bs)
             E = None if bs["exp"] is None else int(now) + bs["exp"]
             new = {"addr": j, "E": E, "turn": False, "created": now, "seen_live": False, "changed": False}
+            if j == CHAIN:
+                res.label("target-is-another-name")
+                self.haz[i].add("target-is-also-a-name")
+                self.haz[CHAIN_NAME].add("target-is-also-a-name")
             if E is not None and E - now >= DAY:
                 self.haz[i].add("expiry-delay-arithmetic")
                 res.label("expiry>24h")
@@ -1096,18 +1152,23 @@ def _kw_extras():
                      st.sampled_from([0, 0, 0, 0, 0, 1, 2, 3, 5, 7, 11, 23]))
 
 
-def _addr_index(a, e, typed):
-    # the user-typed spelling only occurs in configured (never-expiring) mappings
-    return len(ADDRS) - 1 if (e is None and typed) else a
+def _addr_index(a, e, special, n=None):
+    # special 1: the user-typed spelling, which only occurs in configured (never-expiring) mappings;
+    # special 2: the target is the second name (format_line() falls back to address 0 for that name itself)
+    if special == 1 and e is None:
+        return TYPED
+    if special == 2 and n != CHAIN_NAME:
+        return CHAIN
+    return a
 
 
 def _map_steps():
     return st.builds(
-        lambda n, a, e, f, c, x, t: {"op": "map", "name": n, "addr": _addr_index(a, e, t), "exp": e, "form": f,
+        lambda n, a, e, f, c, x, t: {"op": "map", "name": n, "addr": _addr_index(a, e, t, n), "exp": e, "form": f,
                                      "cached": c, "stream": x[0], "junk": x[1], "order": x[2]},
         st.integers(0, len(NAMES) - 1), st.integers(0, RESOLVED_ADDRS - 1), _expiry(),
         st.sampled_from(["new", "new", "mid", "utc3"]), st.booleans(), _kw_extras(),
-        st.sampled_from([False, False, True]))
+        st.sampled_from([0, 0, 0, 0, 1, 1, 2]))
 
 
 def _err_steps():
@@ -1143,10 +1204,10 @@ def _steps(listen=False):
 def _behaviours():
     """What a listener does from inside its 1st, 2nd, ... call (it always looks everything up)."""
     who = st.one_of(st.none(), st.none(), st.none(), st.integers(0, len(NAMES) - 1))
-    feed = st.builds(lambda n, a, e, f, x, t: {"do": "map", "name": n, "addr": _addr_index(a, e, t), "exp": e,
+    feed = st.builds(lambda n, a, e, f, x, t: {"do": "map", "name": n, "addr": _addr_index(a, e, t, n), "exp": e,
                                                "form": f, "stream": x[0], "junk": x[1], "order": x[2]},
                      who, st.integers(0, RESOLVED_ADDRS - 1), _expiry(), st.sampled_from(["new", "new", "mid", "utc3"]),
-                     _kw_extras(), st.sampled_from([False, False, True]))
+                     _kw_extras(), st.sampled_from([0, 0, 0, 0, 1, 1, 2]))
     ferr = st.builds(lambda n, e, f, kw, x: {"do": "err", "name": n, "exp": e, "form": f, "kw": kw,
                                              "stream": x[0], "junk": x[1], "order": x[2]},
                      who, st.integers(30, 3600), st.sampled_from(["new", "new", "mid", "old3"]), st.booleans(),
@@ -1160,9 +1221,9 @@ def _listeners():
 
 
 def _boot():
-    rec = st.builds(lambda n, a, e, t: {"name": n, "addr": _addr_index(a, e, t), "exp": e},
+    rec = st.builds(lambda n, a, e, t: {"name": n, "addr": _addr_index(a, e, t, n), "exp": e},
                     st.integers(0, len(NAMES) - 1), st.integers(0, RESOLVED_ADDRS - 1), _expiry(),
-                    st.sampled_from([False, False, True]))
+                    st.sampled_from([0, 0, 0, 0, 1, 1, 2]))
     return st.one_of(st.just([]), st.lists(rec, max_size=3, unique_by=lambda r: r["name"]))
 
 
@@ -1300,7 +1361,7 @@ def run(ctx):
     ctx.enumerate("torstate", reentrant_grid_cases(), name="reentrant-grid-torstate", exhaustive=True)
 
 
-# Written against txtorcon/addrmap.py with the C20 fixes (fixes/C20-*.diff, committed in /repo).
+# Written against txtorcon/addrmap.py with the C20 fixes fixes/C20-1..7 (7 = target-is-also-a-name) in the tree.
 MUTANTS = [
     ("seconds-field-instead-of-total", "txtorcon/addrmap.py",
      "delay = (self.expires - self.created).total_seconds()", "delay = (self.expires - self.created).seconds"),
@@ -1314,7 +1375,7 @@ MUTANTS = [
     ("expired-not-notified", "txtorcon/addrmap.py",
      "        self.map.notify(\"addrmap_expired\", *[self.name], **{})", "        pass"),
     ("keyed-by-name-only", "txtorcon/addrmap.py",
-     "            self.addr[params[1]] = a\n", "            pass\n"),
+     "            self._file_under_address(params[1], a)\n", "            pass\n"),
     ("address-key-kept-on-expiry", "txtorcon/addrmap.py",
      "        del self.map.addr[self.name]\n        self._forget_address()\n", "        del self.map.addr[self.name]\n"),
     ("timer-kept-when-never", "txtorcon/addrmap.py",
@@ -1340,6 +1401,13 @@ MUTANTS = [
      "        for arg in args[3:4]:\n            if arg.lower().startswith('expires='):"),
     ("address-forgotten-under-normalised-spelling", "txtorcon/addrmap.py",     # needs fixes/C20-6 in the tree
      "        key = self.addr_key\n", "        key = str(self.ip)\n"),
+    # names: capitalisation, and names that are also targets (need fixes/C20-7 in the tree)
+    ("name-filed-in-lower-case", "txtorcon/addrmap.py",
+     "            self.addr[params[0]] = a\n", "            self.addr[params[0].lower()] = a\n"),
+    ("target-entry-taken-for-the-name", "txtorcon/addrmap.py",
+     "        if known is not None and known.name != params[0]:", "        if False:"),
+    ("address-entry-displaces-name-entry", "txtorcon/addrmap.py",
+     "        if holder is None or holder.name != address:", "        if True:"),
     # re-entrancy: what a listener sees and does from inside its callbacks
     ("expired-notified-before-removal", "txtorcon/addrmap.py",
      "        del self.map.addr[self.name]\n        self._forget_address()\n"
@@ -1350,10 +1418,10 @@ MUTANTS = [
      "        self._forget_address()\n        self.map.notify(\"addrmap_expired\", *[self.name], **{})\n",
      "        self.map.notify(\"addrmap_expired\", *[self.name], **{})\n        self._forget_address()\n"),
     ("added-notified-before-insert", "txtorcon/addrmap.py",
-     "            self.addr[params[0]] = a\n            self.addr[params[1]] = a\n"
+     "            self.addr[params[0]] = a\n            self._file_under_address(params[1], a)\n"
      "            a.update(*params)\n            self.notify(\"addrmap_added\", *[a], **{})\n",
      "            a.update(*params)\n            self.notify(\"addrmap_added\", *[a], **{})\n"
-     "            self.addr[params[0]] = a\n            self.addr[params[1]] = a\n"),
+     "            self.addr[params[0]] = a\n            self._file_under_address(params[1], a)\n"),
     ("only-first-listener-notified", "txtorcon/addrmap.py",
      "        for listener in self.listeners:", "        for listener in self.listeners[:1]:"),
     ("listener-registered-twice", "txtorcon/addrmap.py",
